@@ -259,7 +259,7 @@ func (env *CEnv) eval(e *CExpr) V {
 			// assume side: instantiate with the harvested terms of this width
 			env.sawForall = true
 			if t, ok := env.onlyTerm[w]; env.onlyTerm != nil {
-				if !ok {
+				if !ok || len(env.poolFor(e.Args[0], e.Var, w, []string{t})) == 0 {
 					return vBool("true")
 				}
 				env.vars[e.Var] = vBV(t, w, signed)
@@ -267,7 +267,7 @@ func (env *CEnv) eval(e *CExpr) V {
 			}
 			if pool := env.st.pool[w]; len(pool) > 0 {
 				var cs []string
-				for _, t := range pool {
+				for _, t := range env.poolFor(e.Args[0], e.Var, w, pool) {
 					env.vars[e.Var] = vBV(t, w, signed)
 					b := env.eval(e.Args[0])
 					cs = append(cs, b.T)
@@ -320,7 +320,7 @@ func (env *CEnv) eval(e *CExpr) V {
 		i := coerce(env.eval(e.Args[1]), 64, true)
 		if env.prove && i.K == KBV && i.W == 64 && !env.st.inLate {
 			// index terms of goals are instantiation candidates for earlier quantified assumptions
-			env.st.addPool(64, env.st.define("idx", sortBV(64), i.T))
+			env.st.addPoolClass(64, env.st.define("idx", sortBV(64), i.T), seqClass(x))
 		}
 		if x.K == KSeq {
 			return vBV(x.Seq.Byte(resize(i.T, i.W, 64, i.Signed)), 8, false)
@@ -378,7 +378,7 @@ func (env *CEnv) eval(e *CExpr) V {
 					if _, isStruct := sl.Elem().Underlying().(*types.Struct); isStruct {
 						i := coerce(env.eval(ix.Args[1]), 64, true)
 						if env.prove && i.K == KBV && i.W == 64 && !env.st.inLate {
-							env.st.addPool(64, env.st.define("idx", sortBV(64), i.T))
+							env.st.addPoolClass(64, env.st.define("idx", sortBV(64), i.T), seqClass(bx))
 						}
 						p := vPtr(bvadd(bx.Fs[0].T, env.elemOffset(i, uint64(sizeof(sl.Elem())))), bx.Fs[0].Prov)
 						p.Typ = types.NewPointer(sl.Elem())
@@ -396,6 +396,117 @@ func (env *CEnv) eval(e *CExpr) V {
 	}
 	cfail("cannot evaluate %s", e.Op)
 	return V{}
+}
+
+// seqClass names the kind of sequence a value is when it is indexed: "b" for bytes (byte slices,
+// strings, byte sequences), "e:<type>" for slices of other element types, "" otherwise.
+func seqClass(x V) string {
+	if x.K == KSeq {
+		return "b"
+	}
+	if x.K == KTuple && x.Typ != nil {
+		switch u := x.Typ.Underlying().(type) {
+		case *types.Slice:
+			if isByte(u.Elem()) {
+				return "b"
+			}
+			return "e:" + u.Elem().String()
+		case *types.Basic:
+			if u.Kind() == types.String {
+				return "b"
+			}
+		}
+	}
+	if x.K == KTuple && x.Typ == nil && len(x.Fs) >= 2 && x.Fs[0].K == KPtr {
+		return "b"
+	}
+	return ""
+}
+
+// quantClasses finds out how the bound variable v of a quantified clause is used: the classes of the
+// sequences it indexes, or generic=true when it is used in any other way (arithmetic, arguments).
+func (env *CEnv) quantClasses(e *CExpr, v string) (classes map[string]bool, generic bool) {
+	classes = map[string]bool{}
+	var mentions func(e *CExpr) bool
+	mentions = func(e *CExpr) bool {
+		if e == nil {
+			return false
+		}
+		if e.Op == "ident" && e.Tok == v {
+			return true
+		}
+		for _, a := range e.Args {
+			if mentions(a) {
+				return true
+			}
+		}
+		return false
+	}
+	var walk func(e *CExpr)
+	walk = func(e *CExpr) {
+		if e == nil || generic {
+			return
+		}
+		switch e.Op {
+		case "ident":
+			if e.Tok == v {
+				generic = true
+			}
+			return
+		case "index":
+			if ix := e.Args[1]; ix.Op == "ident" && ix.Tok == v && !mentions(e.Args[0]) {
+				func() {
+					defer func() {
+						if r := recover(); r != nil {
+							generic = true
+						}
+					}()
+					c := seqClass(env.eval(e.Args[0]))
+					if c == "" {
+						generic = true
+					} else {
+						classes[c] = true
+					}
+				}()
+				return
+			}
+		case "bin":
+			// guards such as 0 <= v && v < n do not make the variable generic
+			if (e.Tok == "<" || e.Tok == "<=" || e.Tok == ">" || e.Tok == ">=") && len(e.Args) == 2 {
+				l, r := e.Args[0], e.Args[1]
+				if (l.Op == "ident" && l.Tok == v && !mentions(r)) || (r.Op == "ident" && r.Tok == v && !mentions(l)) {
+					return
+				}
+			}
+		}
+		for _, a := range e.Args {
+			walk(a)
+		}
+	}
+	walk(e)
+	if len(classes) == 0 {
+		generic = true
+	}
+	return classes, generic
+}
+
+// poolFor filters the instantiation terms of width w for a quantified clause over variable v.
+func (env *CEnv) poolFor(e *CExpr, v string, w int, pool []string) []string {
+	if w != 64 || len(pool) == 0 {
+		return pool
+	}
+	classes, generic := env.quantClasses(e, v)
+	if generic {
+		return pool
+	}
+	var out []string
+	for _, t := range pool {
+		c := env.st.poolClass[t]
+		if c == "" || classes[c] {
+			out = append(out, t)
+		}
+	}
+	return out
 }
 
 // elemOffset is the byte offset of element i (clamped into [0, 2^40), see the index case) of a
@@ -517,13 +628,16 @@ func seqEq(env *CEnv, a, b *Seq) string {
 		inst := func(t string) {
 			cs = append(cs, implies(app("bvult", t, a.Len), eq(a.Byte(t), b.Byte(t))))
 		}
+		byteIdx := func(t string) bool { c := env.st.poolClass[t]; return c == "" || c == "b" }
 		if env.onlyTerm != nil {
-			if t, ok := env.onlyTerm[64]; ok {
+			if t, ok := env.onlyTerm[64]; ok && byteIdx(t) {
 				inst(t)
 			}
 		} else {
 			for _, t := range env.st.pool[64] {
-				inst(t)
+				if byteIdx(t) {
+					inst(t)
+				}
 			}
 		}
 		return and(cs...)
@@ -1366,7 +1480,7 @@ func (env *CEnv) ghostCall(e *CExpr) V {
 // loadTyped reads a value of Go type t at addr in the memory current for this evaluation.
 func (env *CEnv) loadTyped(addr V, t types.Type) V {
 	space := spaceOf(addr, "H")
-	if addr.Prov != nil && strings.HasPrefix(addr.Prov.Region, "fresh#") && space == "H" {
+	if addr.Prov != nil && (strings.HasPrefix(addr.Prov.Region, "fresh#") || strings.HasPrefix(addr.Prov.Region, "arg:")) && space == "H" {
 		env.st.loadFresh = true
 		defer func() { env.st.loadFresh = false }()
 	}
